@@ -107,7 +107,7 @@ fn tree_strategy() -> BoxedStrategy<Case> {
   tree(GenCfg::wild()).prop_map(Case::Tree).boxed()
 }
 
-fn check_tree(spec: &Spec) -> CheckResult {
+pub fn check_tree(spec: &Spec) -> CheckResult {
   let s = build(spec);
   lib_or_known!(spec, "source()", s.source().to_string());
   lib_or_known!(spec, "rope()", s.rope().to_string());
@@ -165,9 +165,9 @@ impl Prop for C17 {
   }
   fn legs(&self, _tier: Tier) -> Vec<Leg<Case>> {
     vec![
-      Leg { name: "a: mappings strings", source: Cases::Generated(Box::new(mappings_strategy), 100_000, 3_000_000) },
-      Leg { name: "b: JSON bytes", source: Cases::Generated(Box::new(json_strategy), 60_000, 2_000_000) },
-      Leg { name: "c: wild trees", source: Cases::Generated(Box::new(tree_strategy), 40_000, 1_500_000) },
+      Leg { name: "a: mappings strings", source: Cases::Generated(Box::new(mappings_strategy), 500_000, 6_000_000) },
+      Leg { name: "b: JSON bytes", source: Cases::Generated(Box::new(json_strategy), 300_000, 4_000_000) },
+      Leg { name: "c: wild trees", source: Cases::Generated(Box::new(tree_strategy), 200_000, 3_000_000) },
     ]
   }
   fn stages(&self, ctx: &Ctx) -> Vec<Stage> {
